@@ -1,6 +1,6 @@
 import importlib
 
-ALL = ["C%02d" % i for i in range(1, 21) if i != 6]
+ALL = ["C%02d" % i for i in range(1, 21)]
 
 
 def load(pid):
